@@ -205,6 +205,13 @@ def sym_round(x, ndigits=None):
     r = f(t)
     _ax("|round_n(x)-x|<=0.5*10^-n; round_n(round_n(x))=round_n(x)")
     ctx.axiom(z3.And(r - t <= half, t - r <= half, f(r) == r), ("round", r.get_id()))
+    if ctx.opts.get("round_integral"):
+        # the rounded value is a multiple of 10^-n: pins the model to the real
+        # round() (up to ties), so that witnesses replay with floats
+        _ax("round_n(x)*10^n is an integer")
+        scale = 10 ** (ndigits or 0)
+        kint = z3.Int(f"rint!{r.get_id()}")
+        ctx.axiom(r * scale == z3.ToReal(kint), ("roundint", r.get_id()))
     return SymReal(r)
 
 
